@@ -544,6 +544,25 @@ func (c *ctx) denseRewrite() {
 // ---------------------------------------------------------------- T10 knobs
 
 func (c *ctx) knobs(pkgName string) {
+	// hard-wired batch sizes of internal stages ("batchsize := 1000"): knob "batch"
+	ast.Inspect(c.file, func(n ast.Node) bool {
+		as, ok := n.(*ast.AssignStmt)
+		if !ok || as.Tok != token.DEFINE || len(as.Lhs) != 1 || len(as.Rhs) != 1 {
+			return true
+		}
+		id, ok := as.Lhs[0].(*ast.Ident)
+		if !ok || strings.ToLower(id.Name) != "batchsize" {
+			return true
+		}
+		lit, ok := as.Rhs[0].(*ast.BasicLit)
+		if !ok || lit.Kind != token.INT {
+			return true
+		}
+		as.Rhs[0] = call("Knob", &ast.BasicLit{Kind: token.STRING, Value: `"batch"`}, lit)
+		c.used = true
+		stats["T10_knob_batch"]++
+		return true
+	})
 	if pkgName != "obiformats" || c.info == nil {
 		return
 	}
